@@ -557,6 +557,10 @@ func blockContainerLayout(context *layoutContext, box_ Box, bottomSpace pr.Float
 			positionY = pr.Max(maxFloatPositionY, positionY)
 		}
 		newBox.Height = positionY - newBox.ContentBoxY()
+		if collapsingThrough {
+			// positionY does not follow the shift of the box by its collapsed margin
+			newBox.Height = pr.Float(0)
+		}
 	}
 
 	if newBox.Style.GetPosition().String == "relative" {
